@@ -145,7 +145,9 @@ func runC23(c *Ctx) []Obligation {
 			Assume: on(T(aUpgradeHeight), T(`^`+kP+`GetApplication\(k, ctx, (var:)?application\.Address\)#1$`), T(`^\(x/apps/types\.Application\)\.IsStaked\(`)),
 			Target: CallTo(`coinsFrom|AddStakedTokens|UpdateStatus|` + kP + `SetApplication\(`), Why: "an already staked application goes through EditStakeApplication"},
 	}
-	return c.Rows(rows)
+	out := c.Rows(rows)
+	out = append(out, appsEditRouting(c, P)...)
+	return out
 }
 
 func runC25(c *Ctx) []Obligation {
@@ -347,6 +349,7 @@ func runC24(c *Ctx) []Obligation {
 	)
 	// "when due": the sweeps run at the end of every block, unconditionally
 	out = append(out, c.hookRowsEnd(P)...)
+	out = append(out, appsUnstakeLifecycle(c, P)...)
 	return out
 }
 
